@@ -350,10 +350,13 @@ def compare(it, sp, pre_snap, roots, eff0, outcome, prefix):
     for (cont, key, val) in sp.updates:
         upd[(id(cont), key)] = val
     hav = set((id(cont), key) for (cont, key) in sp.havoc)
+    skip_containers = set(id(x) for x in getattr(sp, 'havoc_containers', ()))
     post_snap = snapshot(roots)
     definite = []      # definite mismatches -> obligation `False`
     goals = []
     for cid, (cont, fields) in pre_snap.items():
+        if cid in skip_containers:
+            continue
         now = dict(_children(cont))
         keys = set(fields) | set(now)
         for k in keys:
@@ -601,6 +604,7 @@ class Sim(object):
         self.w = {}          # (id(cont), key) -> (cont, key, value)
         self.effects = []
         self.havoc = []
+        self.havoc_containers = []
         self.post = []
         self.ret = None
         self.exc = None
@@ -616,6 +620,10 @@ class Sim(object):
 
     def dont_care(self, cont, key):
         self.havoc.append((cont, key))
+
+    def dont_care_all(self, container):
+        """the whole content of a container (dict / list / object) is unconstrained"""
+        self.havoc_containers.append(container)
 
     def eff(self, *e):
         self.effects.append(tuple(e))
@@ -643,4 +651,5 @@ class Sim(object):
         hav = set((id(cn), k) for cn, k in self.havoc)
         sp = Spec(updates=[u for kk, u in self.w.items() if kk not in hav], effects=self.effects,
                   ret=self.ret, exc=self.exc, havoc=self.havoc, post=self.post)
+        sp.havoc_containers = list(self.havoc_containers)
         return sp
